@@ -166,6 +166,8 @@ func rootOfV(v ssa.Value, visiting map[ssa.Value]bool) (class string, fresh bool
 			v = x.X
 		case *ssa.Convert:
 			v = x.X
+		case *ssa.MakeInterface:
+			v = x.X
 		case *ssa.UnOp:
 			// load of a pointer stored somewhere: the pointee is not fresh unless the
 			// container is a fresh local that only ever held fresh pointers — be conservative.
@@ -232,7 +234,7 @@ func rootOfV(v ssa.Value, visiting map[ssa.Value]bool) (class string, fresh bool
 			return "call", false
 		case *ssa.Const:
 			return "local", true
-		case *ssa.Extract, *ssa.Lookup, *ssa.TypeAssert, *ssa.MakeInterface, *ssa.Next:
+		case *ssa.Extract, *ssa.Lookup, *ssa.TypeAssert, *ssa.Next:
 			return "loaded", false
 		default:
 			return "loaded", false
